@@ -401,9 +401,10 @@ fn error_paths(acc: &mut Acc) {
             acc.v(&format!("too-long-not-reported mode={}", mode_name(mode).split('(').next().unwrap_or("")), format!("object of {} bytes read into a u32: {}", size, s));
         }
     }
-    // stale data in the device's out mailbox before the request
-    {
-        let (mut net, group) = match bring_up(64, |c| {
+    // stale data in the device's out mailbox before the request; equal and unequal sizes of the
+    // two mailboxes (the send mailbox is only freed by a read that reaches its last byte)
+    for (mbx_in, mbx_out) in [(64usize, 64usize), (64, 128), (128, 64), (24, 64), (64, 32)] {
+        let (mut net, group) = match bring_up2(mbx_in, mbx_out, |c| {
             c.od.insert((0x2000, 1), vec![9, 8, 7, 6]);
         }) {
             Ok(x) => x,
@@ -422,14 +423,17 @@ fn error_paths(acc: &mut Acc) {
             sd.sdo_read::<u32>(0x2000, 1).await
         });
         if !matches!(r, Ok(Ok(0x06070809))) {
-            acc.v("stale-mailbox-content", format!("with stale data in the out mailbox the read returned {:?}, the object holds 0x06070809", r));
+            acc.v(
+                &format!("stale-mailbox-content {}", if mbx_in == mbx_out { "equal-sizes" } else if mbx_in < mbx_out { "write-mailbox-smaller" } else { "write-mailbox-larger" }),
+                format!("with stale data in the out mailbox (write mailbox {} bytes, read mailbox {} bytes) the read returned {:?}, the object holds 0x06070809", mbx_in, mbx_out, r),
+            );
         }
     }
 }
 
 pub fn c15(tier: &Tier) -> Result<i32, String> {
     let mut rep = Report::new("C15", "exploration", tier);
-    rep.rule = "object sizes {0..=40,63,64,65,255,256,512} x mailbox sizes {16,17,24,32,64,128,1024} x upload modes {expedited/normal/segmented as the size dictates, forced normal, forced segmented with (first, segment) length patterns incl. every segment size 1..=8 and the < 7 byte last segment}; primitive, array and string destinations; complete access flag; expedited downloads of 1..=4 bytes; array helpers with 0 and 3 entries; every abort code on reads and writes; emergency; responses for another index / sub-index; objects larger than the destination; stale out-mailbox content; mailbox counters over the session; non-trivial = every transfer".into();
+    rep.rule = "object sizes {0..=40,63,64,65,255,256,512} x mailbox sizes {16,17,24,32,64,128,1024} x upload modes {expedited/normal/segmented as the size dictates, forced normal, forced segmented with (first, segment) length patterns incl. every segment size 1..=8 and the < 7 byte last segment}; primitive, array and string destinations; complete access flag; expedited downloads of 1..=4 bytes; array helpers with 0 and 3 entries; every abort code on reads and writes; emergency; responses for another index / sub-index; objects larger than the destination; stale out-mailbox content with equal and unequal mailbox sizes; mailbox counters over the session; non-trivial = every transfer".into();
     rep.assumptions = vec![
         "CoE server written from ETG.1000.6 (/verif/mc/src/coe.rs): upload segment responses carry command specifier 0, the initial response of a segmented upload carries the first part of the data, segments shorter than 7 bytes are padded to 7 with the unused count in the header".into(),
         "a zero length object has no defined upload encoding and is not judged".into(),
